@@ -29,7 +29,7 @@ LEVEL_TEXT = ("Every stream of at most k items over the alphabet is read and eva
               "forms is found, not sampled.")
 RULE = ("streams enumerated length-then-lexicographic over the item alphabet; a case = (first stream, second stream), all distinct; "
         "non-trivial = at least one reader-macro use is resolved against a definition made earlier in a stream, or a use is rejected; "
-        "states = distinct (reader table, module table) pairs of the model after the first stream, counted per shard (shards partition the streams)")
+        "states = distinct canonical (reader table, module table, rejected?) states of the reference model after the first stream (definition constants replaced by rank), counted exactly by the `graph` shard")
 ASSUMPTIONS = [
     "names r, s (definable) and q (never defined); helper module mrd_b defining r (returns a model) and s (reads one form)",
     "stream length bound as stated; second streams from the fixed list",
@@ -40,7 +40,7 @@ ASSUMPTIONS = [
 
 QUICK_ITEMS = [["defm", "r"], ["defn", "r"], ["defr", "r"], ["defm", "s"], ["use", "r"], ["use", "s"], ["use", "q"], ["top", "r"],
                ["reqr", ["r"]], ["reqstar"], ["plain"], ["douse", "r"]]
-THOROUGH_ITEMS = QUICK_ITEMS + [["defn", "s"], ["defr", "s"], ["top", "s"], ["top", "q"], ["reqr", ["s"]], ["reqr", ["r", "s"]], ["douse", "s"]]
+THOROUGH_ITEMS = QUICK_ITEMS + [["defr", "s"], ["top", "s"], ["reqr", ["s"]], ["douse", "s"]]
 SECOND = [[], [["use", "r"]], [["use", "s"]], [["top", "r"]], [["defm", "r"], ["use", "r"]], [["reqr", ["r"]], ["use", "s"]], [["douse", "r"]]]
 BOUNDS = {"quick": dict(items=QUICK_ITEMS, k=3, shards=64), "thorough": dict(items=THOROUGH_ITEMS, k=4, shards=1024)}
 TIME_CAP = {"quick": 900, "thorough": 3000}
@@ -55,7 +55,7 @@ def bounds(tier):
 
 def shards(tier):
     b = BOUNDS[tier]
-    return enumer.string_shards(len(b["items"]), b["k"], b["shards"])
+    return [["graph", 0]] + enumer.string_shards(len(b["items"]), b["k"], b["shards"])
 
 
 # ------------------------------------------------------------------ implementation side
@@ -253,19 +253,36 @@ def run_shard(shard, tier):
     b = BOUNDS[tier]
     env = _setup()
     acc = Acc()
+    if shard[0] == "graph":
+        # the reference model alone over every first stream: exact number of distinct
+        # (reader table, module table, rejected?) states, definition constants replaced by rank
+        states = set()
+        total = enumer.count_strings(len(b["items"]), b["k"])
+        for idx, toks in enumer.iter_strings(list(range(len(b["items"]))), 0, total, b["k"]):
+            st = R.ReaderStream()
+            e = st.run([b["items"][t] for t in toks], 100)
+            states.add(_canon(st, e))
+        acc.states += len(states)
+        acc.count("canonical_model_states", len(states))
+        return acc.result()
     lo, hi = shard
-    states = set()
     for idx, toks in enumer.iter_strings(list(range(len(b["items"]))), lo, hi, b["k"]):
         first = [b["items"][t] for t in toks]
         for second in SECOND:
-            r1 = check_case(acc, env, first, second)
-        st = r1[0]
-        states.add(repr((sorted(st.table.items()), sorted(st.module.items()))))
+            check_case(acc, env, first, second)
         acc.count("first_streams_of_length_%d" % len(first))
         if idx % 331 == 0:
             acc.sample({"first_stream": R.stream_text(first, 100), "then_each_of": len(SECOND)})
-    acc.states += len(states)
     return acc.result()
+
+
+def _canon(st, e):
+    ks = sorted({b[1] for t in (st.table, st.module) for b in t.values() if len(b) > 1 and b[1] < 900})
+    rank = {k: i for i, k in enumerate(ks)}
+
+    def tab(t):
+        return tuple(sorted((n, b[0], rank.get(b[1], b[1]) if len(b) > 1 else None) for n, b in t.items()))
+    return (tab(st.table), tab(st.module), e["error_at"] is not None)
 
 
 def recheck(case, tier):
